@@ -78,7 +78,7 @@ ASSUMPTIONS = [
 ]
 HEALTH = {"mul:prefix-cancellation": 0.008, "mul:cancel": 0.008,
           "pow:prefix-cancellation": 0.001, "euclid:nonpositive": 0.04,
-          "euclid:big": 0.01, "fft:composite": 0.0015, "fft:sym": 0.001,
+          "euclid:big": 0.01, "fft:composite": 0.0008, "fft:sym": 0.0004,
           "map:partial-change": 0.01, "map:first-term-unchanged": 0.004,
           "subst:coefficient-replaced": 0.005, "divmod:exact": 0.02,
           "euclid-poly:in-domain": 0.01, "eval:exponent-gap": 0.02,
@@ -86,7 +86,7 @@ HEALTH = {"mul:prefix-cancellation": 0.008, "mul:cancel": 0.008,
 
 TIMEOUT_IS_FAIL = True
 CASE_TIMEOUT_S = 20      # wall clock; a case needs < 0.1 s CPU on the unchanged tree
-BUDGET_S = {"quick": 200, "thorough": 2400}
+BUDGET_S = {"quick": 200, "thorough": 3000}
 
 X = prim.Variable("x")
 EVAL_VARIANTS = (
@@ -1320,18 +1320,18 @@ def generate(ctx):
     ctx.exhaustive[f"fft/ifft/sym_fft: every length 1..{max_len} x sign x dtype"] = cells
 
     # -- generated -----------------------------------------------------------
-    plan = (
-        ("poly", G.poly_case(), 12000, 400000),
-        ("poly-map", G.poly_map_case(), 3000, 80000),
-        ("poly-subst", G.poly_subst_case(), 3000, 80000),
-        ("poly-eval", G.poly_eval_case(), 3000, 80000),
+    plan = (        # small sub-checks first: a budget overrun then cuts the bulk only
+        ("fft", G.fft_case(), 200, 8000),
         ("asprim", G.asprim_case(), 300, 4000),
-        ("euclid-poly", G.euclid_poly_case(), 1600, 40000),
-        ("euclid", G.euclid_case(), 3000, 100000),
         ("gcd-many", G.gcd_many_case(), 800, 20000),
         ("ipow", G.ipow_case(), 1600, 40000),
+        ("euclid-poly", G.euclid_poly_case(), 1600, 40000),
+        ("euclid", G.euclid_case(), 3000, 100000),
         ("quotient", G.quotient_case(), 3000, 80000),
-        ("fft", G.fft_case(), 200, 5000),
+        ("poly-eval", G.poly_eval_case(), 3000, 80000),
+        ("poly-map", G.poly_map_case(), 3000, 80000),
+        ("poly-subst", G.poly_subst_case(), 3000, 80000),
+        ("poly", G.poly_case(), 12000, 400000),
     )
     for sub, strat, nq, nt in plan:
         if ctx.over_budget():
